@@ -7,6 +7,6 @@ CONSTANTS
   HopSafe = TRUE
   CLNormalised = TRUE
   BigBodies = TRUE
-  Families = {"id", "sig", "hop"}
+  Families = {"id", "sig", "hop", "inj"}
 INVARIANTS TypeOK RulesHold ComposedAgrees SignedIsReceived BodyIntact SignedAfterStrip SignedAfterIdentity
 CHECK_DEADLOCK FALSE
